@@ -64,5 +64,22 @@ text = '%d defects repaired by `fix:` commits in /repo (the existing 673 tests p
 text += '| property | /repo commit | what failed |\n|---|---|---|\n' + '\n'.join(fixed)
 text += '\n\nKnown findings (not repaired; the check prints KNOWN-FINDING and still fails on any other class):\n\n| property | id | oracle class | what fails |\n|---|---|---|---|\n' + '\n'.join(known)
 block('FINDINGS', text)
+
+# per-property "as built" text
+txt = []
+for pr in props:
+    cid = pr['id']
+    f = os.path.join(root, 'checks', cid + '.json')
+    if not os.path.exists(f):
+        continue
+    cfgs = [json.load(open(f))] + [json.load(open(g)) for g in sorted(glob.glob(os.path.join(root, 'checks', cid + '.*.json')))]
+    c = cfgs[0]
+    txt.append('**%s — %s.** %s' % (cid, pr['title'], c.get('level_text', '').strip()))
+    nm = ' | '.join(x.get('not_modelled', '') for x in cfgs if x.get('not_modelled'))
+    if nm:
+        txt.append('  *Not modelled / residue:* ' + nm.strip())
+    txt.append('')
+block('ASBUILT', '\n'.join(txt))
+
 open(D, 'w').write(s)
 print('DESIGN.md tables refreshed: %d fixed, %d known' % (len(fixed), len(known)))
